@@ -76,7 +76,7 @@ class TreeCase:
                 # exclusion chain: an unsatisfiable leaf whose unsat core needs 20-45 conditions (solvers wrap long cores over lines)
                 self.funs.append((f"check_t{f}(uint256,uint256,uint256)",
                                   ("chain", ch.choose([22, 30, 45], f"t.{f}.n"), ch.pick(3, f"t.{f}.arg"), ch.chance(0.5, f"t.{f}.sq"),
-                                   ch.chance(0.5, f"t.{f}.order"))))
+                                   ch.chance(0.5, f"t.{f}.order"), ch.choose([None, None, "fall", "jump"], f"t.{f}.early"))))
                 continue
             depth = ch.int(3, 4, f"t.{f}.depth")
             self.funs.append((f"check_t{f}(uint256,uint256,uint256)", self._node(depth, f"t.{f}")))
@@ -119,8 +119,18 @@ class TreeCase:
         return ("node", p, self._node(depth - 1, lbl + "T"), self._node(depth - 1, lbl + "F"))
 
     def emit_chain(self, a, node):
-        _, n, i, sq, feasible_first = node
+        _, n, i, sq, feasible_first, early = node
         out = a.fresh("out")
+        if early:
+            # the condition that tells the satisfiable path from the unsatisfiable one comes *first* (a no-op diamond on x == 1);
+            # everything after it - the whole chain and the final test - is shared by both
+            j = a.fresh("dia")
+            _arg(a, i); a.push(1).op("EQ")
+            if early == "jump":
+                a.op("ISZERO")
+            a.jumpi(j)
+            a.push(0).op("POP")
+            a.label(j)
         for k in range(2, n + 2):
             _arg(a, i); a.push(k).op("EQ").jumpi(out)
         _arg(a, i); a.push(n + 1).op("LT").jumpi(out)  # n+1 < x
@@ -143,8 +153,14 @@ class TreeCase:
             A.emit_panic(a, 1)
             a.label(nxt)
 
-        for part in ((feasible, infeasible) if feasible_first else (infeasible, feasible)):
-            part()
+        if early:
+            nxt = a.fresh("nxt")
+            val(); a.push(0).op("LT").op("ISZERO").jumpi(nxt)  # 0 < v: with x != 1 this needs every exclusion to be refuted
+            A.emit_panic(a, 1)
+            a.label(nxt)
+        else:
+            for part in ((feasible, infeasible) if feasible_first else (infeasible, feasible)):
+                part()
         a.label(out)
         a.op("STOP")
 
